@@ -236,7 +236,8 @@ def fcidump(one, two_phys, core, nelec, ms2, end="&END"):
         for j in range(i + 1):
             if one[i, j] != 0.0:
                 out.append(f" {one[i, j]:23.16E} {i + 1:3d} {j + 1:3d}   0   0")
-    out.append(f" {core:23.16E}   0   0   0   0")
+    if core is not None:  # model Hamiltonians carry no core-energy line
+        out.append(f" {core:23.16E}   0   0   0   0")
     return "\n".join(out) + "\n"
 
 
